@@ -114,7 +114,7 @@ class Rejected(Family):
 
     def configs(self, tier):
         out = []
-        Ls = (4,) if tier == "quick" else (4, 5)
+        Ls = (4,) if tier == "quick" else (4, 5, 6)
         for L in Ls:
             for kind in ("fresh", "tracked", "reshaped", "reshaped-other-range"):
                 for case in WEAVER_CASES:
